@@ -1,8 +1,10 @@
 package main
 
 import (
+	"encoding/json"
 	"fmt"
 	"os"
+	"os/exec"
 	"path/filepath"
 	"sort"
 	"strconv"
@@ -19,9 +21,81 @@ func specialCheck(p *propDef, tier string, baseSeed uint64, simBin string, start
 // selftest determinism: the same run indices executed in several fresh processes
 // at different GOMAXPROCS must produce identical event logs (hash over every
 // event including simulated times, sequence numbers and park announcements).
+// sensitivity: every kept seeded change (seeded/<id>/patch.diff) is applied to a
+// scratch worktree of /repo and the quick check of the property it breaks must
+// report a violation there.
+func sensitivity(args []string) int {
+	dirs, _ := filepath.Glob(filepath.Join(root, "seeded", "*", "meta.json"))
+	sort.Strings(dirs)
+	self, _ := os.Executable()
+	missed := 0
+	for _, mf := range dirs {
+		var meta struct {
+			ID   string `json:"id"`
+			Prop string `json:"breaks_property"`
+		}
+		b, _ := os.ReadFile(mf)
+		json.Unmarshal(b, &meta)
+		if len(args) > 0 && !strings.Contains(meta.ID, args[0]) {
+			continue
+		}
+		wt, err := os.MkdirTemp("", "verif-sens-")
+		if err != nil {
+			die(2, "%v", err)
+		}
+		os.Remove(wt)
+		run := func(dir string, name string, a ...string) (string, error) {
+			c := exec.Command(name, a...)
+			c.Dir = dir
+			out, err := c.CombinedOutput()
+			return string(out), err
+		}
+		if out, err := run(repo, "git", "worktree", "add", "-q", "--detach", wt, "HEAD"); err != nil {
+			die(2, "worktree: %s", out)
+		}
+		cleanup := func() { run(repo, "git", "worktree", "remove", "--force", wt) }
+		if out, err := run(wt, "git", "apply", "-3", filepath.Join(filepath.Dir(mf), "patch.diff")); err != nil {
+			fmt.Printf("SENSITIVITY %-45s %s  patch no longer applies: %s\n", meta.ID, meta.Prop, strings.TrimSpace(out))
+			cleanup()
+			missed++
+			continue
+		}
+		rd, _ := os.MkdirTemp("", "verif-sens-replays-")
+		c := exec.Command(self, "check", meta.Prop, "--tier", "quick")
+		c.Env = append(os.Environ(), "VERIF_REPO="+wt, "VERIF_NO_EVIDENCE=1", "VERIF_BUILD_TAG=-sens", "VERIF_BRIEF=1", "VERIF_REPLAY_DIR="+rd)
+		if os.Getenv("VERIF_WALL_MS") == "" {
+			c.Env = append(c.Env, "VERIF_WALL_MS=20000")
+		}
+		out, _ := c.CombinedOutput()
+		os.RemoveAll(rd)
+		cleanup()
+		n := strings.Count(string(out), "VIOLATION property="+meta.Prop)
+		verdict := "CAUGHT"
+		if n == 0 {
+			verdict = "MISSED"
+			missed++
+		}
+		first := ""
+		for _, l := range strings.Split(string(out), "\n") {
+			if strings.HasPrefix(l, "  class:") {
+				first = strings.TrimSpace(l)
+				break
+			}
+		}
+		fmt.Printf("SENSITIVITY %-45s %s  %s (%d classes) %s\n", meta.ID, meta.Prop, verdict, n, first)
+	}
+	if missed > 0 {
+		return 1
+	}
+	return 0
+}
+
 func selftest(args []string) int {
+	if len(args) > 0 && args[0] == "sensitivity" {
+		return sensitivity(args[1:])
+	}
 	if len(args) == 0 || args[0] != "determinism" {
-		die(2, "usage: verif selftest determinism [runs] [repeats]")
+		die(2, "usage: verif selftest determinism [runs] [repeats] [engine/profile ...] | selftest sensitivity [id-substring]")
 	}
 	n, repeats := 60, 6
 	if len(args) > 1 {
